@@ -51,7 +51,17 @@ def gen_duration(rng):
         s = gen_duration(rng) or "1h"
         i = rng.randrange(len(s) + 1)
         return s[:i] + rng.choice([" ", "x", "-", "+", ".", "e", "\x00", "h", "_", ","]) + s[i:]
-    sign = rng.choice(["", "", "", "+", "-", "-"])
+    if k < 0.6:  # a value inside [0, 24 h] written in a random mix of units
+        v = rng.choice([rng.randrange(0, DAY + 1), rng.randrange(0, 86401) * NS, rng.randrange(0, 1441) * 60 * NS,
+                        rng.randrange(0, 10 ** rng.choice([1, 3, 6, 9, 12]))])
+        out = ""
+        for unit in ("h", "m", "s", "ms", "us", "ns"):
+            if rng.random() < 0.5 or unit == "ns":
+                q, v = divmod(v, UNIT_NS[unit])
+                if q or (unit == "ns" and not out):
+                    out += "%d%s" % (q, unit)
+        return rng.choice(["", "", "", "+"]) + out
+    sign = rng.choice(["", "", "", "", "+", "-"])
     parts = "".join(gen_number(rng) + rng.choice(UNITS) for _ in range(rng.choice([1, 1, 1, 2, 2, 3])))
     return sign + parts
 
@@ -262,7 +272,7 @@ def run(ctx):
         "generated_shape": facts.get("c03", {}).get("shape"),
         "constants": {k: facts.get("c03", {}).get(k) for k in ("maxCertificateLifetime", "maxRoleRequestingCertDuration", "awsTemplateLifetime")},
         "samples": [{"op": lines[i], "impl": impl[i], "model": model[i] if i < len(model) else None}
-                    for i in list(range(0, 4)) + [j for j, o in enumerate(ops) if o[0] in ("role", "aws")][:2]],
+                    for i in list(range(0, min(4, len(ops)))) + [j for j, o in enumerate(ops) if o[0] in ("role", "aws")][:2]],
     })
     ctx.assumptions += [
         "time.ParseDuration is a parameter: the theorems hold for every int64 it may return; the harness reports the value Go parsed",
